@@ -14,10 +14,11 @@ import (
 )
 
 type NamedExpr struct {
-	Name string
-	Src  string
-	E    *SExpr
-	Line int
+	Name   string
+	Src    string
+	E      *SExpr
+	Line   int
+	Callee string // callsite clauses: substring of the callee's key
 }
 
 type Contract struct {
@@ -27,6 +28,7 @@ type Contract struct {
 	Props    []string
 	Lets     []NamedExpr
 	Requires []NamedExpr
+	CallSites []NamedExpr // 'callsite <callee> requires name: e': must hold (in the caller's state, args as arg0..) before each matching call
 	Axioms   []NamedExpr // definitional axioms of spec functions over the heap (assumed, listed)
 	Names    []NamedExpr // 'function' clauses: the result of a pure deterministic function named by a spec function (assumed at call sites, listed)
 	Ensures  []NamedExpr
@@ -91,7 +93,7 @@ func contractFiles(repo string) ([]string, error) {
 var directiveWords = map[string]bool{
 	"property": true, "requires": true, "axiom": true, "function": true, "ensures": true, "let": true, "loop": true,
 	"modifies": true, "pure": true, "nopanic": true, "overflow": true, "inline": true,
-	"trusted": true, "params": true, "fresh": true, "option": true, "sorts": true,
+	"trusted": true, "params": true, "fresh": true, "option": true, "sorts": true, "callsite": true,
 }
 
 func loadContracts(repo string) (*ContractDB, error) {
@@ -272,6 +274,18 @@ func (db *ContractDB) directive(c *Contract, body, file string, ln int) error {
 			return err
 		}
 		c.Requires = append(c.Requires, ne)
+	case "callsite":
+		// callsite <callee substring> requires <name>: <expr>
+		f := strings.Fields(rest)
+		if len(f) < 3 || f[1] != "requires" {
+			return fmt.Errorf("%s:%d: callsite <callee> requires <name>: <expr>", file, ln)
+		}
+		ne, err := mk(strings.TrimSpace(strings.SplitN(rest, "requires", 2)[1]), fmt.Sprintf("cs%d", len(c.CallSites)+1))
+		if err != nil {
+			return err
+		}
+		ne.Callee = f[0]
+		c.CallSites = append(c.CallSites, ne)
 	case "function":
 		ne, err := mk(rest, fmt.Sprintf("f%d", len(c.Names)+1))
 		if err != nil {
